@@ -8,7 +8,7 @@ META = dict(
     level_text="PARTIAL. Machine-checked: C06_backends_agree_partial — for every sequence of well-positioned writes and resizes MemoryStorage, FileStorage's data file and the memory+file pair of the memory-mapped storage "
                "hold the same bytes (and the pair stays in sync); C06_reads_agree; C06_gap_writes_agree; and one layer up (module StorageLevel of Props/C06.v, models Storage.v of C04): C06_instances_lawful (each back-end, modelled literally, is a lawful byte store), C06_storage_parametric (Storage<D> run over any lawful byte store gives, for EVERY storage operation list, the observations of the canonical store), C06_backends_agree / C06_mem_file_agree (hence all three back-ends give identical observations for every operation list). The step from the byte store to query results (generic Storage/collections/DbImpl code instantiated per back-end, "
                "AnyStorage delegating) is an argument about Rust generics and is checked by running every query of generated histories on DbMemory, DbFile, Db, DbAny(memory/file/mapped) side by side: every result "
-               "and error kind must be identical, and equal to the extracted database model's.",
+               "and error kind must be identical, and equal to the extracted database model's. Collection and database level (models and relation as in C05): C06_{vec,map,graph}_variants_agree — the file-like and the memory-like storage model give the same observations for every collection history; C06_db_variants_agree_partial — a file-like and a memory-like storage (or any two record stores) each holding the SAME database (stored_db) load, by the loader program / the extracted load_db, to databases with the same graph arrays and property lists and equal up to sd_eqv (alias lookups, index keys in order, ids as multisets), hence with equal results for every order-independent read-only query (C05_db_eqv_queries); non-vacuity C06_db_sample (the same creation program on both storage models leaves the same record store). Partial: that both variants hold the same database after the same history of queries is the simulation of db.rs's mutations (C05_db_operations_preserve_stored_db), covered by the side-by-side runs.",
     design_ref="DESIGN.md §5 C06",
     level_note="Trusted: Coq kernel, extraction, OCaml driver, Rust harness; Rust generics (monomorphisation does not change behaviour). The storage layer's own model (Storage<D> over an abstract byte store) is C04's.",
 )
